@@ -15,6 +15,8 @@ Expected(e, s) ==
     [] e.a = "RepCast" -> [ok |-> InRange(e.args.rep, s.v), st |-> DoCast(s, e.args.rep)]
     [] e.a = "AddLit" -> DoAdd(s, e.args.rep, UnitIdx(e.args.unit), BI(e.args.v), 1)
     [] e.a = "SubLit" -> DoAdd(s, e.args.rep, UnitIdx(e.args.unit), BI(e.args.v), -1)
+    [] e.a = "CmpLit" -> [ok |-> LET x == DoCmp(s, e.args.rep, UnitIdx(e.args.unit), BI(e.args.v)) IN
+                                   x.ok /\ (e.obs.lt = 1) = (x.ord < 0) /\ (e.obs.eq = 1) = (x.ord = 0) /\ (e.obs.gt = 1) = (x.ord > 0), st |-> s]
     [] e.a = "MulInt" -> DoMul(s, e.args.k)
     [] e.a = "Neg" -> DoNeg(s)
 ObsSt(e) == LET en == Encl(e.obs.mag, 1, 1) IN St(e.obs.rep, en.nl, en.dl, FromWire(e.obs.v))
